@@ -22,6 +22,8 @@ enum SOp {
     Clone { h: usize },
     Drop { h: usize },
     Release,
+    /// MetricSink::flush on a handle: must return at once and must not touch the queue
+    Flush { h: usize },
 }
 
 impl SOp {
@@ -31,6 +33,7 @@ impl SOp {
             SOp::Clone { h } => format!("C{}", h),
             SOp::Drop { h } => format!("D{}", h),
             SOp::Release => "R".to_string(),
+            SOp::Flush { h } => format!("F{}", h),
         }
     }
     fn parse(s: &str) -> SOp {
@@ -47,6 +50,7 @@ impl SOp {
             }
             b'C' => SOp::Clone { h: s[1..].parse().unwrap() },
             b'D' => SOp::Drop { h: s[1..].parse().unwrap() },
+            b'F' => SOp::Flush { h: s[1..].parse().unwrap() },
             _ => SOp::Release,
         }
     }
@@ -76,11 +80,12 @@ struct Sim {
     in_gate: bool,
     queue: usize,
     done: bool,
+    flushes: bool,
 }
 
 impl Sim {
     fn new(cap: Option<usize>) -> Sim {
-        Sim { cap, alive: vec![true], in_gate: false, queue: 0, done: false }
+        Sim { cap, alive: vec![true], in_gate: false, queue: 0, done: false, flushes: false }
     }
     fn n_alive(&self) -> usize {
         self.alive.iter().filter(|a| **a).count()
@@ -110,6 +115,11 @@ impl Sim {
         if self.in_gate {
             v.push(SOp::Release);
         }
+        if self.flushes {
+            if let Some(h) = self.alive.iter().position(|a| *a) {
+                v.push(SOp::Flush { h });
+            }
+        }
         v
     }
     fn apply(&mut self, op: &SOp) {
@@ -135,6 +145,7 @@ impl Sim {
                     self.done = true;
                 }
             }
+            SOp::Flush { .. } => {}
             SOp::Release => {
                 if self.queue > 0 {
                     self.queue -= 1;
@@ -369,6 +380,30 @@ fn run_seq(sc: &Scenario, sid: u64) -> SeqOutcome {
                             nonlast_drop_seen = true;
                             // nothing must happen now; give a wrongly triggered stop the time to take effect
                             settle();
+                        }
+                    }
+                }
+            }
+            SOp::Flush { h } => {
+                if let Some(Some(x)) = handles.get(*h) {
+                    let before = sh.count(|e| matches!(e, Ev::Enter { .. }));
+                    let r = in_call("flush", || ctx(sc), || panics::guard(|| x.flush()));
+                    obs.push(("flush_calls_on_queuing_sink", 1));
+                    match r {
+                        Err(p) => {
+                            viol.push(V { props: vec!["C10"], rule: "R5", class: "flush-panicked".into(), detail: format!("flush on the queuing sink unwound into the caller: {}", p) });
+                            aborted = true;
+                            break 'ops;
+                        }
+                        Ok(_) => {
+                            // a flush by a caller must not consume queue entries: nothing new may have entered the sink
+                            // beyond what the model predicts (the worker is at rest)
+                            let after = sh.count(|e| matches!(e, Ev::Enter { .. }));
+                            if after != before {
+                                viol.push(V { props: vec!["C10", "C08"], rule: "R5", class: "flush-consumed-queue".into(), detail: format!("flush() on the queuing sink handed {} queued metric(s) to the wrapped sink", after - before) });
+                                aborted = true;
+                                break 'ops;
+                            }
                         }
                     }
                 }
@@ -788,6 +823,7 @@ fn mode_seq_random(r: &mut Runner) {
         };
         let len = rng.range(4, 40) as usize;
         let mut sim = Sim::new(cap);
+        sim.flushes = true;
         let mut ops = Vec::new();
         let p_panic = if focus == "panic" { 40 } else { 12 };
         let p_err = if focus == "error" { 50 } else { 15 };
@@ -805,6 +841,7 @@ fn mode_seq_random(r: &mut Runner) {
                     SOp::Emit { .. } => true,
                     SOp::Clone { .. } => rng.chance(1, 3),
                     SOp::Drop { .. } => rng.chance(1, 4),
+                    SOp::Flush { .. } => rng.chance(1, 3),
                     SOp::Release => true,
                 };
                 if keep {
@@ -966,7 +1003,7 @@ fn main() {
         let args2 = args.clone();
         spawn_call_watchdog(move |what, ctx, evidence| {
             let mut r = rep2.lock().unwrap_or_else(|e| e.into_inner());
-            let (p, class) = if what == "drop" { ("C09", "drop-blocked") } else { ("C10", "emit-blocked") };
+            let (p, class) = if what == "drop" { ("C09", "drop-blocked") } else if what == "flush" { ("C10", "flush-blocked") } else { ("C10", "emit-blocked") };
             if p == prop2 {
                 let cap = ctx.get("capacity").and_then(|c| c.as_str()).unwrap_or("?").to_string();
                 let ops = ctx.get("ops").and_then(|c| c.as_str()).unwrap_or("").to_string();
